@@ -36,6 +36,9 @@ pub enum Act {
     /// the chain thread polls (or continues the poll it is stuck in)
     Poll,
     Probe,
+    /// the node answers again, but its best block is the parent of the tower's tip (it lost its last block, or sits on
+    /// an equal-work sibling): the next poll finds a worse tip
+    NodeBehind,
 }
 
 impl Act {
@@ -50,6 +53,7 @@ impl Act {
             Act::ApiRun => "apirun".into(),
             Act::Poll => "poll".into(),
             Act::Probe => "probe".into(),
+            Act::NodeBehind => "nodebehind".into(),
         }
     }
 }
@@ -133,6 +137,10 @@ pub fn scenarios() -> Vec<(&'static str, Vec<Act>)> {
         // the node flaps: the poll succeeds (flag restored, waiters woken) but the RPC interface is gone again when the
         // carrier retries; the carrier must go on waiting, not give the penalty up
         ("request-path-node-flaps", vec![NodeDown, ApiStart, ApiRun, Probe, NodeUp, RpcDownAfter(0), Poll, ApiRun, Probe, NodeUp, Poll, ApiRun, Probe]),
+        // the node comes back one block behind the tower (or on an equal-work sibling): the first successful poll finds a
+        // worse tip; it is still a successful poll: the outage is over, the waiting submission goes through
+        ("node-back-one-block-behind", vec![NodeDown, Poll, Probe, NodeBehind, NodeUp, Poll, Probe]),
+        ("request-path-node-back-one-block-behind", vec![NodeDown, ApiStart, ApiRun, Probe, NodeBehind, NodeUp, Poll, ApiRun, Probe]),
         ("request-path-node-flaps-twice", vec![NodeDown, ApiStart, ApiRun, NodeUp, RpcDownAfter(0), Poll, ApiRun, NodeUp, RpcDownAfter(0), Poll, ApiRun, Probe, NodeUp, Poll, ApiRun, Probe]),
     ]
 }
@@ -265,6 +273,12 @@ pub fn run(_seed: u64, _thorough: bool, rep: &mut Report) {
                     }
                 }
                 Act::Probe => {}
+                Act::NodeBehind => {
+                    let l = run.live.as_ref().unwrap();
+                    let n = l.sys.chain.len();
+                    let parent = l.sys.chain[n - 2].1.block_hash();
+                    l.source.0.lock().unwrap().best = Some(parent);
+                }
             }
             let mut out = run.observe();
             if *act == Act::Probe {
